@@ -1502,9 +1502,10 @@ where
                     return error("Incomplete class set escape");
                 };
                 match cp {
-                    // \b
+                    // \b is U+0008 (backspace)
                     0x62 /* b */ => {
-                        Ok(self.consume(cp))
+                        self.consume(cp);
+                        Ok(0x08)
                     }
                     // \ ClassSetReservedPunctuator
                     _ if Self::is_class_set_reserved_punctuator(cp) => Ok(self.consume(cp)),
@@ -1513,14 +1514,16 @@ where
                 }
             }
             // [lookahead ∉ ClassSetReservedDoublePunctuator] SourceCharacter but not ClassSetSyntaxCharacter
-            0x28 /* ( */ | 0x29 /* ) */ | 0x7B /* { */ | 0x7D /* } */ | 0x2F /* / */
-            | 0x2D /* - */ | 0x7C /* | */ => error("Invalid class set character"),
+            0x28 /* ( */ | 0x29 /* ) */ | 0x5B /* [ */ | 0x5D /* ] */ | 0x7B /* { */
+            | 0x7D /* } */ | 0x2F /* / */ | 0x2D /* - */ | 0x7C /* | */ => {
+                error("Invalid class set character")
+            }
             _ => {
-                if Self::is_class_set_reserved_double_punctuator(cp)
-                    && let Some(cp) = self.peek()
-                        && Self::is_class_set_reserved_double_punctuator(cp) {
-                            return error("Invalid class set character");
-                        }
+                // A ClassSetReservedDoublePunctuator is the same punctuator twice (&&, !!, ~~, ...);
+                // two different punctuators in a row are two ordinary characters.
+                if Self::is_class_set_reserved_double_punctuator(cp) && self.peek() == Some(cp) {
+                    return error("Invalid class set character");
+                }
                 Ok(cp)
             }
         }
@@ -1996,10 +1999,12 @@ where
                         // Found a high surrogate. Try to parse a low surrogate next
                         // to see if we can rebuild the original `char`
 
+                        // If no valid low surrogate escape follows, nothing after the first
+                        // escape (in particular not the `\u`) must be consumed.
+                        orig_input = self.input.clone();
                         if !self.try_consume_str("\\u") {
                             return Some(u as u32);
                         }
-                        orig_input = self.input.clone();
 
                         // A poor man's try block to handle the backtracking
                         // in a single place instead of every time we want to return.
